@@ -8,7 +8,7 @@ from ddlib import hx, coq_node
 
 ID = "C30"
 THEOREMS = ["C30_escape_term", "C30_escape_quoted", "C30_lex_term", "C30_lex_prefix", "C30_quoted", "C30_int_bound",
-            "C30_value_term", "C30_value_quoted", "C30_value_range", "C30_fold_and", "C30_fold_or",
+            "C30_value_term", "C30_value_quoted", "C30_value_range", "C30_value_wild", "C30_multiterm_roundtrip", "C30_fold_and", "C30_fold_or",
             "C30_node_roundtrip", "C30_node_roundtrip_nofloat", "C30_text_roundtrip", "C30_roundtrip_nonvacuous",
             "C30_whitespace_refuted", "C30_attr_raw_refuted", "C30_float_text_refuted", "C30_keyword_refuted",
             "C30_wildcard_raw_refuted", "C30_wildcard_multiterm_refuted", "C30_string_bound_refuted",
@@ -26,12 +26,13 @@ MANIFEST = {
     "text": "Closed Coq theorems: unescape(lucene_escape s)=s and unescape(quoted_escape s)=s for all s; the escaped text of "
             "a term is consumed as exactly one TERM (and TERM_PREFIX, PHRASE) of the grammar; printed integers read back; "
             "visit_query folds AND/OR lists into the Boolean node; and parse(to_lucene n) = n for every `safe` tree n "
-            "(induction over negations, AND/OR lists with their parentheses, and all leaves except wildcards), hence "
+            "(induction over negations, AND/OR lists with their parentheses, and every kind of leaf incl. wildcards; "
+            "plus the bare multi-word term as whole query), hence "
             "parse(to_lucene(parse q)) = parse q for accepted texts with a safe tree. The unchanged implementation "
             "violates the property outside `safe`: eleven finding classes, each with a `_refuted` witness in Coq, a "
             "corpus case and a specific matcher.",
-    "note": "Partial: NWild leaves and a bare multi-word term as the whole query are outside `safe` (not proved, they "
-            "round-trip on all generated cases). Float bounds: their f64 Display text is a hypothesis (num_text_ok) "
+    "note": "`safe` is the complement of the recorded finding classes (slightly stricter: attribute names with `/` are "
+            "excluded). Float bounds: their f64 Display text is a hypothesis (num_text_ok) "
             "of C30_node_roundtrip; C30_node_roundtrip_nofloat is hypothesis-free. In the correspondence run the "
             "model's to_lucene receives the implementation's own Display text of each float. Text is modelled as UTF-8 "
             "bytes (every special character of the grammar is ASCII); i64/f64 from_str are modelled (f64 by exact "
